@@ -124,11 +124,21 @@ def run_case(case):
     p = m.project
     res["source"] = "backward"
     try:
-        B.run(p, spec)
+        if case["i"] % 2 == 1:
+            # the reference forward result comes from ANOTHER fresh model: backward_simulate() is the very
+            # first run these objects see ("as if backward_simulate had never been called")
+            I.set_order(order)
+            m_ref = B.build(spec)
+            B.run(m_ref.project, spec)
+            fwd = strip_pert(B.dump(m_ref.project))
+            res.count("C17.backward_is_first_run")
+            I.set_order(order)
+        else:
+            B.run(p, spec)
+            fwd = strip_pert(B.dump(p))
     except Exception as e:
         res["aborted"] = exc_info(e)
         return res
-    fwd = strip_pert(B.dump(p))
     before = structure(p)
     # ---- reference backward run (no fault): collects the injection points
     pl = PhaseLog()
